@@ -82,11 +82,14 @@ def build(tier, seed):
                 + "    ok = len(rows) == %d\n" % n
                 + "    for i, r in enumerate(rows):\n"
                 + "        start = (i == 0) or keys[i] != keys[i - 1]\n"
+                + "        nlev = %d\n" % levels
+                + "        first = 0 if i == 0 else ([j for j in range(nlev) if (keys[i][j] if nlev > 1 else keys[i]) != (keys[i - 1][j] if nlev > 1 else keys[i - 1])] + [nlev])[0]\n"
+                + "        want_hdr = 0 if not start else (1 if sub else nlev - first)\n"
                 + "        flag = r['is_subline_start'] if sub else r['is_group_start']\n"
                 + "        other = r['is_group_start'] if sub else r['is_subline_start']\n"
                 + "        hdr = r['subline_header_rows'] if sub else r['pageby_header_rows']\n"
                 + "        ok = ok and flag == start and other == False and r['row_index'] == i\n"
-                + "        ok = ok and r['data_rows'] == 1 and hdr == (1 if start else 0) and r['total_rows'] == 1 + hdr\n"
+                + "        ok = ok and r['data_rows'] == 1 and hdr == want_hdr and r['total_rows'] == 1 + hdr\n"
                 + "    return ok\n")
             obs.append(Ob(
                 oid="O3.meta.n%d.l%d" % (n, levels), sig=ksig + ", nrow: int, add: int, new_page: bool, sub: bool",
@@ -96,7 +99,8 @@ def build(tier, seed):
                 bounds="n=%d rows, %d grouping level(s), keys symbolic one-character strings, page_by or subline_by (symbolic), "
                        "nrow/reserved unbounded" % (n, levels),
                 what="is_group_start/is_subline_start(i) <=> some key of row i differs from row i-1; row 0 starts; "
-                     "total_rows = data lines + heading lines of the starting group"))
+                     "total_rows = data lines + one heading line per rendered level of the starting group (page_by: the outermost changed "
+                     "level and all below it; subline_by: one heading paragraph)"))
     # O4: the strategies pass the right forcing flags to the calculator
     obs.append(Ob(
         oid="O4.strategy_flags", sig="new_page: bool, pageby_header: bool, which: int", pre=["0 <= which <= 2"],
